@@ -276,6 +276,42 @@ def rule_block(R):
             R.ob("block/%s/%s" % (nm, v), used == want[v],
                  "Properties::%s in representation %s accounts for exactly the fields %s (uses %s): the declared property "
                  "length equals the bytes emitted" % (nm, v, sorted(want[v]), sorted(used)), where=b.span)
+    # ... and what is added up are encoded sizes: every summand of the Slice / WithCorrelation arms is `Property::size` of
+    # one property, or the *sum* of `Property::size` over a list -- never a number of elements
+    from .ops import _closure_defs
+    def summands(t):
+        t = peel(t)
+        if t[0] == "field" and peel(t[1])[0] == "bin":
+            t = peel(t[1])
+        if t[0] == "bin" and t[1].startswith("Add"):
+            return summands(t[2]) + summands(t[3])
+        return [t]
+    def is_size_call(t):
+        t = peel(t)
+        return t[0] == "call" and (t[2] or "").endswith("::size") and "Propert" in (t[2] or "")
+    for v in ("Slice", "WithCorrelation"):
+        val = arm_value(size, zs["edges"][v]) if zs["edges"].get(v) is not None else None
+        okv, why = val is not None, ""
+        for sm in (summands(val) if val is not None else []):
+            if is_size_call(sm):
+                continue
+            if is_call(sm, "Iterator::sum", "sum") and sm[3]:
+                maps = [x for x in walk(sm[3][0]) if isinstance(x, tuple) and is_call(x, "Iterator::map", "map") and len(x[3]) == 2]
+                good = False
+                for mp in maps:
+                    for d in _closure_defs(mp[3][1]):
+                        cb = f.bodies.get(d)
+                        if cb is not None and is_size_call(cb.local_term(0)):
+                            good = True
+                if good:
+                    continue
+            if any(isinstance(x, tuple) and x[0] == "loop" for x in walk(sm)) and any(isinstance(x, tuple) and is_size_call(x) for x in walk(sm)) \
+                    and not any(isinstance(x, tuple) and is_call(x, "Iterator::count", "count", "len") for x in walk(sm)):
+                continue       # an explicit accumulation loop over Property::size
+            okv, why = False, show(sm)[:100]
+        R.ob("block/size-is-a-sum/%s" % v, okv,
+             "Properties::size in representation %s adds up encoded sizes (Property::size of each property), not element "
+             "counts%s" % (v, "" if okv else " — summand " + why), where=size.span)
     # `_len` = Varint(self.size() as u32) is the first field
     fields = sorted([c for c in ser.calls.values() if c.bb in ser.reachable and c.is_("serialize_field")], key=lambda c: c.bb)
     first = [c for c in fields if ser.dominates(c.bb, ss["bb"])]
